@@ -393,6 +393,7 @@ def idx_lit(x):
     return L.opt(x, lambda v: v)
 
 
+SCORER_LIMIT = 0        # entries of Multiple.scorer rendered for the definitional score check (C11 sets 260; 0 = skip)
 ALIGN_KEYS = ["method", "tree", "tree_seed", "mode", "model", "classes", "sonar", "scoredict_seed", "scoredict_kind",
               "gop", "scale", "factor", "gap_weight", "guide_tree"]
 
@@ -462,6 +463,11 @@ def run_impl(case):
             gw = call.get("gap_weight", 0.0)
             before_m = [list(r) for r in msa._alm_matrix]
             s_before = rec.score(msa, before_m, gw)
+            scorer_tab = None
+            if call["kind"] != "swap" and call.get("check") == "final" and len(msa.scorer) <= SCORER_LIMIT:
+                # the scoring dictionary that is current during this call (for the definitional score check)
+                scorer_tab = [[cell_int(a), cell_int(b), str(F(v))] for (a, b), v in msa.scorer.items()
+                              if "." in str(a) and "." in str(b)]
             rec.new_call()
             raised = None
             try:
@@ -501,6 +507,7 @@ def run_impl(case):
                 "raised": raised, "int": int_matrix(after_m), "ext": ext_matrix(),
                 "before": str(F(s_before)), "after": str(F(s_after)), "cand": cand,
                 "measured_gw": sorted({float(g) for _, g in rec.sop}),
+                "gw": str(F(gw)), "scorer": scorer_tab,
             })
     res = dict(epochs[0])
     res["epochs"] = epochs[1:]
@@ -557,7 +564,10 @@ def step_lit(s):
         COQ_KIND[s["kind"]], COQ_CHECK[s["check"]], idxs_lit(s["idxs"]), pa_lit(s["pa"]),
         scores_lit(s["scores"]), scores_lit(s["scores0"]), L.b(s["raised"] is not None),
         imat_lit(s["int"]), emat_lit(s["ext"]), L.q(F(s["before"])), L.q(F(s["after"])),
-        "None" if s["cand"] is None else "(Some %s)" % imat_lit(s["cand"])])
+        "None" if s["cand"] is None else "(Some %s)" % imat_lit(s["cand"]),
+        L.q(F(s.get("gw", "0"))),
+        "None" if s.get("scorer") is None else "(Some %s)" % L.lst(
+            ["((%s, %s), %s)" % (cell_lit(a)[5:], cell_lit(b)[5:], L.q(F(v))) for a, b, v in s["scorer"]])])
 
 
 def render(case, res):
@@ -580,6 +590,9 @@ BITS = {0: "correspondence: model state differs from the implementation's _alm_m
         3: "C11: sum-of-pairs score after a refinement call (end-of-pass check) is lower than before",
         4: "C11: the end-of-pass candidate scored lower than the previous alignment but the previous alignment "
            "was not restored cell for cell",
+        6: "C11: the sum-of-pairs score by the DOCUMENTED definition (model Msa/Score.v on the recorded scoring "
+           "dictionary) differs from the value measured with the implementation, or is lower after an end-of-pass "
+           "refinement call than before",
         5: "C11: an early-exit call (one index set / fewer than three sequences / one gap profile / swap check) "
            "changed the alignment"}
 
@@ -668,6 +681,7 @@ def classify(case, res):
         out.append("very_unequal_lengths")
     for s in all_steps(res):
         out.append("call:%s:%s" % (s["kind"], outcome(s)))
+    out += ["definitional_check" for st in all_steps(res) if st.get("scorer") is not None]
     for e in res.get("epochs", []):
         out.append("realign:height_changed" if e["height"] != res["height"] else "realign:height_same")
     return out
